@@ -191,7 +191,7 @@ func main() {
 	for i, b := range bad {
 		text := b.SQL
 		if i%3 == 1 {
-			text = strings.Replace(text, " ", "\n", 2) // located errors on later lines
+			text = breakLines(text, 2) // located errors on later lines
 		}
 		byStage["parse"] = append(byStage["parse"], input{"parse", text, "corruption:" + b.Origin})
 	}
@@ -601,4 +601,26 @@ func firstN(s string, n int) string {
 		return s[:n]
 	}
 	return s
+}
+
+// breakLines turns the first n blanks that stand BETWEEN lexemes into line breaks (a blank inside a quoted identifier
+// or literal is part of the lexeme: a line break there would make another input, for a quoted identifier a lexical error).
+func breakLines(text string, n int) string {
+	b := []byte(text)
+	var quote byte
+	for i := 0; i < len(b) && n > 0; i++ {
+		c := b[i]
+		switch {
+		case quote != 0:
+			if c == quote {
+				quote = 0
+			}
+		case c == '\'' || c == '"' || c == '`':
+			quote = c
+		case c == ' ':
+			b[i] = '\n'
+			n--
+		}
+	}
+	return string(b)
 }
